@@ -35,11 +35,20 @@ func VerifC18_BatchReleaseFinalizer() {
 	cli := &symclient.Client{Objects: []client.Object{release}, Faults: true}
 	r := &BatchReleaseReconciler{Client: cli}
 	stop, err := r.handleFinalizer(release)
-	removed := false
+	removed, added := false, false
 	for _, w := range cli.Writes("update", "BatchRelease") {
 		if hasOwn && !c18Has(w.Obj.GetFinalizers(), ReleaseFinalizer) {
 			removed = true
 		}
+		if !hasOwn && c18Has(w.Obj.GetFinalizers(), ReleaseFinalizer) {
+			added = true
+		}
+	}
+	// the finalizer is taken before any work: the reconcile goes on to the executor only for a BatchRelease that
+	// holds it (a failed attempt to add it ends the round; otherwise a deletion could remove the object before its
+	// workload was released)
+	if !stop {
+		verifrt.Assert(hasOwn || added, "C18.batchrelease.noWorkWithoutFinalizer")
 	}
 	if removed {
 		verifrt.Cover("finalizer-removed")
